@@ -650,7 +650,11 @@ def reduce_dim(f, reducedef, fuzzydim=True, metakeys=_metakeys):
         # vreshape = addunitydim(var)
         if varkey not in metakeys:
             if numweightkey is None:
-                vout = _getfunc(vreshape, func)(axis=axis, keepdims=True)
+                vout = vreshape
+                # a variable may have the dimension on more than one axis
+                for axisi, dk in enumerate(var.dimensions):
+                    if dk == dimkey:
+                        vout = _getfunc(vout, func)(axis=axisi, keepdims=True)
             elif denweightkey is None:
                 wvar = var * \
                     np.array(numweight, ndmin=var.ndim)[
@@ -1002,14 +1006,17 @@ def convolve_dim(f, convolve_def):
         lconvolve = dimkey in var.dimensions
         p2p.addVariable(f, outf, vark, data=not lconvolve)
         if lconvolve:
-            axisi = list(var.dimensions).index(dimkey)
             if isinstance(var[:], np.ma.MaskedArray):
                 # masked cells make every window they touch masked
                 cfunc = np.ma.convolve
             else:
                 cfunc = np.convolve
-            values = np.apply_along_axis(func1d=lambda x_: cfunc(
-                weights, x_, mode=mode), axis=axisi, arr=var[:])
+            values = var[:]
+            # a variable may have the dimension on more than one axis
+            for axisi, dk in enumerate(var.dimensions):
+                if dk == dimkey:
+                    values = np.apply_along_axis(func1d=lambda x_: cfunc(
+                        weights, x_, mode=mode), axis=axisi, arr=values)
             if isinstance(var[:], np.ma.MaskedArray):
                 values = np.ma.masked_invalid(values)
 
